@@ -24,6 +24,7 @@ EXPLANATION = (
     "_context_id / context_id of a received message has one writer each, fed by the PDV's context id. "
     "Decides the property for every arriving request because a handler can only be reached through the "
     "enumerated entries. Not decided: what abort() then does on the wire."
+    ' Fourth session: (id-flow) only the reader that decoded a message puts it on msg_queue; (accepted-table) the partition evaluation of C11.'
 )
 
 
